@@ -299,7 +299,8 @@ pub fn c09(tier: &str, seed: u64) -> Vec<Case> {
                     let nopts = r.below(4) as usize;
                     let opt = OPT { udp_packet_size: udp, version: ver,
                         opt_codes: (0..nopts).map(|_| { let l = *r.pick(&[0usize, 1, 3, 255, 1000]); OPTCode { code: if r.chance(1, 2) { r.below(20) as u16 } else { r.next() as u16 }, data: r.bytes(l).into() } }).collect() };
-                    let mut p = Packet::new_reply(r.next() as u16);
+                    // replies and (every third) queries: the split of the response code does not depend on QR
+                    let mut p = if extra % 3 == 2 { Packet::new_query(r.next() as u16) } else { Packet::new_reply(r.next() as u16) };
                     *p.rcode_mut() = *rc;
                     *p.opt_mut() = Some(opt.clone());
                     for _ in 0..extra { p.additional_records.push(g.rr_of(*r.pick(&[0usize, 1, 12, 13]))); }
@@ -349,7 +350,7 @@ pub fn c09(tier: &str, seed: u64) -> Vec<Case> {
     // library's TTL layout (what it emits) and in the RFC's
     let n = if thorough { 6000 } else { 500 };
     for i in 0..n {
-        let mut p = Packet::new_reply(r.next() as u16);
+        let mut p = if i % 4 == 1 { Packet::new_query(r.next() as u16) } else { Packet::new_reply(r.next() as u16) };
         let rc = *r.pick(&Gen::RCODES);
         *p.rcode_mut() = rc;
         let opt = g.opt();
